@@ -9,7 +9,7 @@ PROPS = {
     "C06": [("u_rows", "quick"), ("u_switch", "quick")],
     "C17": [("u_dynvis", "quick"), ("u_ceffect", "quick")],
     "C16": [("u_pkgallow", "quick"), ("u_orphan", "quick"), ("u_topo", "quick"), ("u_depenv", "quick"), ("u_cohere", "quick"), ("u_loadpkg", "quick")],
-    "C10": [("u_intlit", "quick"), ("u_dcefx", "quick"), ("u_tastlit", "quick")],
+    "C10": [("u_intlit", "quick"), ("u_dcefx", "quick"), ("u_tastlit", "quick"), ("u_golit", "quick")],
     "C07": [("u_munify", "quick"), ("u_msubst", "quick"), ("u_mcall", "quick"), ("u_tmono", "quick"), ("u_minst", "quick")],
     "C15": [("u_art", "quick"), ("u_link", "quick"), ("u_deprec", "quick")],
     "C09": [("u_dcefx", "quick"), ("u_ceffect", "quick"), ("u_dceblk", "quick"), ("u_ctrl", "quick"), ("u_letlow", "quick")],
